@@ -25,6 +25,8 @@ EXTRACTION_DROPS = [
     "if typing.TYPE_CHECKING: import blocks",
     "comments (# type:, # pragma)",
     "__repr__/__str__ bodies (never under contract)",
+    "decorators: only property / setter / staticmethod / classmethod / overload / abstractmethod are understood; a function "
+    "with any other decorator is outside the subset (never silently treated as undecorated)",
 ]
 
 
@@ -32,6 +34,12 @@ class FuncInfo:
     def __init__(self, qual, node, file, cls=None, kind="method"):
         self.qual = qual          # e.g. "ByteInterval._BlockSet.update" or "get_desired_range"
         self.node = node          # ast.FunctionDef | ast.Lambda
+        # decorators that change what a call does (anything but the structural ones) are not modelled: calls to such a
+        # function are outside the subset
+        decos = [ast.unparse(d) for d in getattr(node, "decorator_list", [])]
+        self.foreign_decorators = [d for d in decos if not (d in ("property", "staticmethod", "classmethod", "abstractmethod",
+                                                                  "abc.abstractmethod", "typing.overload", "overload")
+                                                            or d.endswith(".setter") or d.endswith(".getter"))]
         self.file = file          # file name relative to python/gtirb
         self.cls = cls            # owning ClassInfo or None
         self.kind = kind          # method | staticmethod | classmethod | getter | setter | function | lambda
